@@ -119,7 +119,7 @@ PROPS.update({
         "level": "proof", "design_ref": "DESIGN.md section 5 C06",
         "assumptions": U1_ASSUME + ["#[derive(Default)] on SuffixDict yields count == 0 and index == 0 (assumed specification of the derived impl)",
                                      "units with iterator client loops are verified with --no-lifetime"],
-        "level_text": "PARTIAL proof: (F1) representation invariant of the suffix dictionary, (F2) insert against the abstract view (hit: some live entry equals the suffix up to ASCII case, nothing changes; miss: exactly slot `index` is replaced, every other slot untouched), (F3) the offset remembered for a suffix is its position in the OUTPUT, (F4) what the name emitter appends is whole labels followed by nothing or one pointer below 0x4000 that stands for at least 3 bytes, (F5) a compressed name/record/packet is never longer than the original, (F6) every record of every section is re-emitted, OPT included, (F7) the RDLENGTH written back equals the data bytes emitted, (F8) 'every pointer it emits designates, in the output, the suffix it stands for', at the level of the name emitter: if every live dictionary entry designates in the output a valid name equal to its suffix up to ASCII case (dict_ok), then after copy_compressed_name_with_base_offset the name just emitted is valid under the parser's name rule (at most 16 pointers: Compress::indirections is proved to return exactly the number of pointers the parser follows), decodes in the output to the input name up to ASCII case, and dict_ok holds again (spec/ptr.rs: walk transport, labels-then-pointer composition, pending-entry invariant of the emitter loop); compress() succeeds exactly on accepted packets and copies the header. NOT proved by contracts: that dict_ok survives the RDLENGTH fix-up of compress_rdata (a 2-byte write into the record header just emitted, which no name occupies) and hence that it holds at every emitter call of compress(); that the whole result is accepted; message equality -- these clauses are exercised by the differential replay (compress, re-parse, compare, decompress)",
+        "level_text": "PARTIAL proof: (F1) representation invariant of the suffix dictionary, (F2) insert against the abstract view (hit: some live entry equals the suffix up to ASCII case, nothing changes; miss: exactly slot `index` is replaced, every other slot untouched), (F3) the offset remembered for a suffix is its position in the OUTPUT, (F4) what the name emitter appends is whole labels followed by nothing or one pointer below 0x4000 that stands for at least 3 bytes, (F5) a compressed name/record/packet is never longer than the original, (F6) every record of every section is re-emitted, OPT included, (F7) the RDLENGTH written back equals the data bytes emitted, (F8) 'every pointer it emits designates, in the output, the suffix it stands for': the invariant dict_ok (every live dictionary entry designates, in the output, a valid name equal to its suffix up to ASCII case) holds from SuffixDict::new() to the end of compress(): the name emitter keeps it (pending-entry invariant of its loop; a hit can only be an entry that was faithful at entry), Compress::indirections is proved to return exactly the number of pointers the parser follows, appends keep it (walk transport lemma), and so does the RDLENGTH fix-up of compress_rdata (no name designated by the dictionary reads those two bytes: window lemmas of spec/ptr.rs); consequently every name compress() writes -- question, owner names, NS/CNAME/PTR/MX targets, both SOA names -- is asserted, at the place it is emitted, to be valid under the parser's name rule (at most 16 pointers, strictly backward, at most 255 bytes) and to decode in the output to the input name up to ASCII case; compress() succeeds exactly on accepted packets and copies the header. NOT proved by contracts: that the result as a whole is accepted by the parser (the names, counts, RDLENGTHs and the record sequence are each proved, their assembly into rr_spec of the output is not), and message equality as one statement -- these clauses are exercised by the differential replay (compress, re-parse, compare, decompress)",
         "technique": "Verus data-structure invariant + view-based postconditions for the dictionary; frame/length/count contracts for the emitter and the section loops; remaining clauses by differential replay (stated)",
     },
     "C07": {
